@@ -83,6 +83,7 @@ type world struct {
 	nextID   int
 	byQid    map[uint64]*mnode
 	trace    []string
+	scratch  [][]byte // per session: the buffer its writes are issued from, overwritten after every call
 }
 
 func newWorld(nsess int) *world {
@@ -93,6 +94,7 @@ func newWorld(nsess int) *world {
 	for i := 0; i < nsess; i++ {
 		w.sess = append(w.sess, p9p.SFileSys(fs))
 		w.fids = append(w.fids, map[uint32]*mfid{})
+		w.scratch = append(w.scratch, make([]byte, 512))
 	}
 	return w
 }
@@ -196,9 +198,23 @@ func (w *world) do(op Op) callResult {
 				r.data = buf[:r.n]
 			}
 		case "write":
-			r.n, r.err = s.Write(ctx, fid, []byte(op.Data), op.Offset)
+			// the caller's buffer is reused after the call, as io.Copy-style loops do
+			sc := w.scratch[op.S]
+			n := copy(sc, op.Data)
+			buf := sc[:n:n]
+			if n < len(op.Data) {
+				buf = []byte(op.Data)
+			}
+			r.n, r.err = s.Write(ctx, fid, buf, op.Offset)
+			for i := range sc[:n] {
+				sc[i] = 0xEE
+			}
 		case "truncate":
-			r.err = s.WStat(ctx, fid, p9p.Dir{Mode: ^uint32(0), Length: op.Length})
+			d := p9p.Dir{Mode: ^uint32(0), Length: op.Length}
+			if op.Name != "" {
+				d.Name = op.Name // the same request also asks for a new name (ramfs cannot rename)
+			}
+			r.err = s.WStat(ctx, fid, d)
 		case "stat":
 			r.dir, r.err = s.Stat(ctx, fid)
 		case "clunk":
@@ -484,6 +500,10 @@ func (w *world) step(op Op) string {
 		}
 		if f.node.dataUnknown {
 			return ""
+		}
+		if op.Name != "" && op.Name != f.node.name {
+			// a request that is refused (no rename in ramfs) changes nothing, whatever else it carried
+			return mustFail("ramfs cannot rename")
 		}
 		if op.Length > uint64(len(f.node.data)) {
 			return mustFail("cannot extend a file by wstat")
